@@ -165,10 +165,10 @@ def layout_problems(regs: list, check_overlap: bool = True) -> list:
             if r.name in seen:
                 out.append("duplicate_name:%s" % r.name)
             seen[r.name] = r
-        spans.append((r.offset, r.offset + max(1, r.width // 8), r.name))
+        spans.append((r.offset, r.offset + max(1, r.width // 8), r.name, r.reserved))
     if check_overlap:
         spans.sort()
-        for (a0, a1, an), (b0, b1, bn) in zip(spans, spans[1:]):
+        for (a0, a1, an, ar), (b0, b1, bn, br) in zip(spans, spans[1:]):
             if b0 < a1 and (a0, a1) != (b0, b1):
-                out.append("overlap:%s/%s" % (an, bn))
+                out.append("%s:%s/%s" % ("overlap_reserved" if ar and br else "overlap", an, bn))
     return out
